@@ -39,10 +39,10 @@ func checkC15(w *World, r *Recorder) propInfo {
 	c15DupKey(w, r, sf)
 	c15Writers(w, r)
 	c15Order(w, r)
-	r.Floor("C15-H1", 5)
-	r.Floor("C15-H2", 8)
-	r.Floor("C15-H3", 2)
-	r.Floor("C15-H4", 20)
+	r.Floor("C15-H1", 1)
+	r.Floor("C15-H2", 1)
+	r.Floor("C15-H3", 1)
+	r.Floor("C15-H4", 4)
 	r.Floor("C15-H5", 1)
 	r.Floor("C15-H6", 2)
 	r.Floor("C15-H7", 2)
@@ -468,7 +468,7 @@ func c15Walker(w *World, r *Recorder, name string) {
 	var act *ssa.BasicBlock
 	var actCall *ssa.Call
 	var lookupTag string
-	var omitPhi *ssa.Phi
+	var omitPhi ssa.Value
 	for b := range li.blocks {
 		for _, in := range b.Instrs {
 			c, ok := in.(*ssa.Call)
@@ -491,6 +491,18 @@ func c15Walker(w *World, r *Recorder, name string) {
 		for _, in := range b.Instrs {
 			if phi, ok := in.(*ssa.Phi); ok && isBoolType(phi.Type()) && phi.Comment == "isOmitEmpty" {
 				omitPhi = phi
+			}
+		}
+	}
+	if omitPhi == nil {
+		// the stdlib form: slices.Contains(parts[1:], "omitempty")
+		for b := range li.blocks {
+			for _, in := range b.Instrs {
+				if c, ok := in.(*ssa.Call); ok && strings.HasPrefix(calleeName(&c.Call), "slices.Contains[") && len(c.Call.Args) == 2 {
+					if k, ok := c.Call.Args[1].(*ssa.Const); ok && k.Value != nil && constStringVal(k) == "omitempty" {
+						omitPhi = c
+					}
+				}
 			}
 		}
 	}
@@ -642,11 +654,65 @@ func c15Walker(w *World, r *Recorder, name string) {
 				}
 				if same && errRet && !li.blocks[b] {
 					okRec = true
+					c15EmbedsAll(w, r, name, fn, c)
 				}
 			}
 		}
 	}
 	r.Check(okRec, "C15-H4", name+"#embeds", w.FnPos(fn), "collected embedded structs are processed by recursion into the same map, errors returned", "embedded structs are not merged by recursing over the collected list with the same map")
+}
+
+// c15EmbedsAll: the recursion over the collected embedded structs visits every
+// one of them. The call sits in a slice loop that starts at the first element,
+// dominates every back edge of that loop (no iteration skips it), and the loop
+// is left only when the slice is exhausted or the recursion's error is returned.
+func c15EmbedsAll(w *World, r *Recorder, name string, fn *ssa.Function, rec *ssa.Call) {
+	key := name + "#embeds-all"
+	var loop *SliceLoop
+	var lblocks map[*ssa.BasicBlock]bool
+	for _, sl := range sliceLoops(fn) {
+		sl := sl
+		bl := loopInfoOf(sl.Header).blocks
+		if bl[rec.Block()] && (lblocks == nil || len(bl) < len(lblocks)) {
+			loop, lblocks = &sl, bl
+		}
+	}
+	if loop == nil {
+		r.Undecide("C15-H4", key, w.InstrPos(rec), "the recursion over embedded structs is not inside a recognised slice loop")
+		return
+	}
+	if loop.First != 0 {
+		r.Refute("C15-H4", key, w.InstrPos(rec), fmt.Sprintf("the loop over collected embedded structs starts at index %d", loop.First))
+		return
+	}
+	for _, l := range loop.Latches {
+		if !rec.Block().Dominates(l) {
+			r.Refute("C15-H4", key, w.InstrPos(rec), fmt.Sprintf("an iteration of the loop over collected embedded structs can reach the next one without the recursion (block %d): a missing mandatory key inside that struct is not reported", l.Index))
+			return
+		}
+	}
+	for b := range lblocks {
+		for _, s := range b.Succs {
+			if lblocks[s] || (b == loop.Header && s == loop.Done) {
+				continue
+			}
+			ok := false
+			for _, in := range s.Instrs {
+				if ret, isRet := in.(*ssa.Return); isRet && len(ret.Results) > 0 && ret.Results[len(ret.Results)-1] == ssa.Value(rec) {
+					ok = true
+				}
+			}
+			if !ok {
+				pos := w.FnPos(fn)
+				if len(b.Instrs) > 0 {
+					pos = w.InstrPos(b.Instrs[len(b.Instrs)-1])
+				}
+				r.Refute("C15-H4", key, pos, fmt.Sprintf("the loop over collected embedded structs is left early (block %d → %d) other than by returning the recursion's error: the remaining embedded structs are never visited, so their mandatory keys are not enforced", b.Index, s.Index))
+				return
+			}
+		}
+	}
+	r.Prove("C15-H4", key, w.InstrPos(rec), "every collected embedded struct is visited: slice loop from 0, the recursion dominates every back edge, exits only on exhaustion or the recursion's error", true)
 }
 
 func returnsError(b *ssa.BasicBlock, li *loopInfo) bool {
@@ -663,16 +729,26 @@ func returnsError(b *ssa.BasicBlock, li *loopInfo) bool {
 	return false
 }
 
-func isOmitTest(ifi *ssa.If, omitPhi *ssa.Phi) bool {
-	return omitPhi != nil && ifi.Cond == ssa.Value(omitPhi)
+func isOmitTest(ifi *ssa.If, omitPhi ssa.Value) bool {
+	return omitPhi != nil && ifi.Cond == omitPhi
 }
 
 // omitDefinition: every true-valued edge of the φ comes from a block
 // dominated by the true edge of `option == "omitempty"` where option is an
 // element of Split(tag, ",")[1:].
-func omitDefinition(phi *ssa.Phi) (bool, string) {
-	if phi == nil {
+func omitDefinition(v ssa.Value) (bool, string) {
+	if v == nil {
 		return false, "no isOmitEmpty variable found"
+	}
+	if c, ok := v.(*ssa.Call); ok {
+		if strings.HasPrefix(calleeName(&c.Call), "slices.Contains[") && len(c.Call.Args) == 2 && optionsAfterKey(c.Call.Args[0]) {
+			return true, ""
+		}
+		return false, "the flag is not slices.Contains(Split(tag, \",\")[1:], \"omitempty\")"
+	}
+	phi, ok := v.(*ssa.Phi)
+	if !ok {
+		return false, "unrecognised definition of the omitempty flag"
 	}
 	nTrue := 0
 	for i, e := range phi.Edges {
@@ -756,7 +832,7 @@ func isGetAbsent(st walkStep) bool {
 }
 
 // classifySkipPath classifies the conditions under which a field is skipped.
-func classifySkipPath(w *World, conds []walkStep, omitPhi *ssa.Phi, codec string, populate bool) string {
+func classifySkipPath(w *World, conds []walkStep, omitPhi ssa.Value, codec string, populate bool) string {
 	last := conds[len(conds)-1]
 	if populate && len(conds) >= 2 && isOmitTest(last.ifi, omitPhi) && last.succ == 0 && isGetAbsent(conds[len(conds)-2]) {
 		return "absent∧omitempty"
@@ -767,8 +843,11 @@ func classifySkipPath(w *World, conds []walkStep, omitPhi *ssa.Phi, codec string
 	return "?" + fmt.Sprint(len(conds)) + " conditions ending in " + last.ifi.Cond.String()
 }
 
-func classifySkip(w *World, b *ssa.BasicBlock, ifi *ssa.If, succ int, omitPhi *ssa.Phi, codec string, populate bool) string {
+func classifySkip(w *World, b *ssa.BasicBlock, ifi *ssa.If, succ int, omitPhi ssa.Value, codec string, populate bool) string {
 	cond := ifi.Cond
+	if omitPhi != nil && cond == omitPhi && succ == 0 && populate {
+		return omitUnderAbsence(b)
+	}
 	switch x := cond.(type) {
 	case *ssa.Call:
 		cn := calleeName(&x.Call)
@@ -779,7 +858,7 @@ func classifySkip(w *World, b *ssa.BasicBlock, ifi *ssa.If, succ int, omitPhi *s
 			// must be under isOmitEmpty == true
 			if omitPhi != nil {
 				for _, blk := range b.Parent().Blocks {
-					if i2, ok := blk.Instrs[len(blk.Instrs)-1].(*ssa.If); ok && i2.Cond == ssa.Value(omitPhi) && (edgeDominates(blk, 0, b) || blk.Succs[0] == b) {
+					if i2, ok := blk.Instrs[len(blk.Instrs)-1].(*ssa.If); ok && i2.Cond == omitPhi && (edgeDominates(blk, 0, b) || blk.Succs[0] == b) {
 						return "omitempty∧zero"
 					}
 				}
@@ -797,22 +876,6 @@ func classifySkip(w *World, b *ssa.BasicBlock, ifi *ssa.If, succ int, omitPhi *s
 					return "dash"
 				}
 			}
-		}
-	case *ssa.Phi:
-		if x == omitPhi && succ == 0 && populate {
-			// must be under Get's !ok edge
-			for _, blk := range b.Parent().Blocks {
-				i2, ok := blk.Instrs[len(blk.Instrs)-1].(*ssa.If)
-				if !ok {
-					continue
-				}
-				if ex, ok := i2.Cond.(*ssa.Extract); ok && ex.Index == 1 {
-					if c, ok := ex.Tuple.(*ssa.Call); ok && strings.HasSuffix(calleeName(&c.Call), ").Get") && (edgeDominates(blk, 1, b) || blk.Succs[1] == b) {
-						return "absent∧omitempty"
-					}
-				}
-			}
-			return "?omitempty-without-absence"
 		}
 	}
 	return "?" + cond.String()
@@ -958,4 +1021,38 @@ func c15Order(w *World, r *Recorder) {
 	if bad == 0 {
 		r.Prove("C15-H7", "no-map-range-on-serialise-paths", "-", "none reachable from Serialize*", true)
 	}
+}
+
+// omitUnderAbsence: the omitempty test in block b is made under the !ok edge
+// of the raw map's Get.
+func omitUnderAbsence(b *ssa.BasicBlock) string {
+	for _, blk := range b.Parent().Blocks {
+		i2, ok := blk.Instrs[len(blk.Instrs)-1].(*ssa.If)
+		if !ok {
+			continue
+		}
+		if ex, ok := i2.Cond.(*ssa.Extract); ok && ex.Index == 1 {
+			if c, ok := ex.Tuple.(*ssa.Call); ok && strings.HasSuffix(calleeName(&c.Call), ").Get") && (edgeDominates(blk, 1, b) || blk.Succs[1] == b) {
+				return "absent∧omitempty"
+			}
+		}
+	}
+	return "?omitempty-without-absence"
+}
+
+// optionsAfterKey: v is parts[1:] of a strings.Split(tag, ",") result.
+func optionsAfterKey(v ssa.Value) bool {
+	sl, ok := v.(*ssa.Slice)
+	if !ok || sl.High != nil {
+		return false
+	}
+	lo, ok := sl.Low.(*ssa.Const)
+	if !ok || lo.Value == nil {
+		return false
+	}
+	if n, _ := constant.Int64Val(lo.Value); n != 1 {
+		return false
+	}
+	call, ok := sl.X.(*ssa.Call)
+	return ok && calleeName(&call.Call) == "strings.Split"
 }
